@@ -119,6 +119,15 @@ Definition encode (ts : list tape) : list esym := flat_map enc_tape ts.
 Definition encodes (ext : list esym) (ts : list tape) : Prop :=
   ext = encode ts /\ Forall (fun t => t_pos t < length (t_cells t)) ts.
 
+(* InconsistentTapesException rule of MNTM.validate: at least one tape, every alternative has
+   one (write, move) pair per tape *)
+Definition valid_tapes (m : mntm) : bool :=
+  Nat.leb 1 (mt_n m) &&
+  forallb (fun qr : nat * list (list nat * list malt) =>
+             forallb (fun e : list nat * list malt =>
+                        forallb (fun a : malt => Nat.eqb (length (snd a)) (mt_n m)) (snd e)) (snd qr))
+          (mt_trans m).
+
 (* ---------- the BFS ---------- *)
 (* queue entries (state, tape, position) *)
 Definition ecfg := (nat * list esym * nat)%type.
